@@ -51,6 +51,9 @@ var c03Sigma = [][]string{
 	// reject-origin list; the declared size is above the limit): no transaction is open afterwards
 	{"MAIL FROM:<a@badorigin.test>"},
 	{"MAIL FROM:<c@x.test> SIZE=99999999"},
+	// one command line longer than a reader buffer whose bytes from the 4096th on read "QUIT": it
+	// is one line and gets one reply
+	{"NOOP" + strings.Repeat(" ", 4096-4) + "QUIT"},
 }
 
 type c03Case struct {
